@@ -89,7 +89,11 @@ Proof. reflexivity. Qed.
 Print Assumptions C19_empty_rejected.
 (* 6b. the same clause stated positively: every input yields a value, the documented rejection, or (depth 101..200) one of the two;
        and the reason: a table subscript behind its `in` guard cannot fail; the two token lists the final loop zips are equally long
-       (zip() drops nothing: the model's `combine` does not hide a truncation) *)
+       (zip() drops nothing: the model's `combine` does not hide a truncation).
+       Strength of these three: the first is theorem 6 with the four constructors of `result` destructed (no new content); the second
+       restates LicModel.mem / lookup (find succeeds where existsb holds) - it is the reason behind theorem 6, for any table; the third
+       is about the MODEL's lower (character-wise, whitespace preserved): that CPython's str.lower() never creates or removes
+       whitespace is the trusted law.l.lowerprobe over all code points, not this theorem. *)
 Theorem C19_value_or_documented_exception s :
   (exists o, canonicalize_license_expression s = Ok o) \/ canonicalize_license_expression s = Err \/
   (exists o, canonicalize_license_expression s = Limit o).
@@ -141,7 +145,8 @@ Print Assumptions C19_simple_ids_readable.
 Theorem C19_exception_ids w o : exc_canon exceptions w = Some o <-> In o (map snd exceptions) /\ afold o = afold w.
 Proof. exact (finalb_exception_ids w o). Qed.
 Print Assumptions C19_exception_ids.
-(* the character class of a LicenseRef suffix, spelled out; and: no id of the bundled licence table starts with "licenseref-" *)
+(* the character class of a LicenseRef suffix, spelled out (an unfolding of LicModel.ref_char, for the reader); and: no id of the bundled
+   licence table starts with "licenseref-" (a computed fact about the table of the working tree) *)
 Theorem C19_ref_characters c : ref_char c = true <-> (65 <= c <= 90) \/ (97 <= c <= 122) \/ (48 <= c <= 57) \/ c = 46 \/ c = 45.
 Proof. exact (ref_char_iff c). Qed.
 Print Assumptions C19_ref_characters.
@@ -151,7 +156,11 @@ Print Assumptions C19_no_table_id_is_a_licenseref.
 (* 9b. where this reading differs from SPDX proper (Annex D: license-ref = "LicenseRef-" idstring, idstring = 1*(ALPHA/DIGIT/"-"/"."),
        simple-expression = license-id / license-id "+" / license-ref): exactly one extra form - a LicenseRef followed by "+".
        An EMPTY idstring ("LicenseRef-", "licenseref-+") is rejected (fix 8e6ceae; it was accepted before).  "GPL-2.0++" is
-       license-id "+" with the (deprecated) table id "GPL-2.0+", i.e. within SPDX proper. *)
+       license-id "+" with the (deprecated) table id "GPL-2.0+", i.e. within SPDX proper.
+       "SPDX proper" here is simple-expression without a document prefix.  Two further Annex D forms are REJECTED by the code and by
+       this specification alike (so they are no difference between the two, but they are a difference to the full Annex D grammar):
+       "DocumentRef-" idstring ":" "LicenseRef-" idstring  (":" is no LicenseRef character; no table id starts with "DocumentRef-")
+       and, after WITH, "AdditionRef-" idstring (SPDX 3; in no exception table).  The property text names neither form. *)
 Theorem C19_simple_ids_vs_spdx_proper w o : lic_canon licenses w = Some o <->
   strict_simple licenses w o \/
   (ref_with_plus w /\ o = licenseref_prefix ++ skipn 11 w).
@@ -172,8 +181,13 @@ Proof. exact (finalb_text_layout s o). Qed.
 Print Assumptions C19_textual_layout.
 
 (* 11. same structure, at the level of expression trees: the input tokens are the tokens of a well-formed tree e, the tokens of the
-       result are the tokens of the same tree with every leaf in its canonical spelling (canon_expr: a map over the leaves, same shape),
-       which is well-formed and its own canonical tree *)
+       result are the tokens of the same tree with every leaf in its canonical spelling (canon_expr: a map over the leaves - the last
+       conjunct, same shape, holds by construction), which is well-formed and its own canonical tree.
+       What "tree" means: LicGrammar.expr has NO operator precedence or associativity, so the grouping of AND/OR within one
+       parenthesis level is not constrained - e is one of several parses that differ only in that grouping.  The trees do fix the
+       parenthesis nesting, the operand of each WITH and the order of operands and operators.  This adds to C19_canonical_form (token by
+       token) only that the correspondence respects that nesting; C19_same_tree_every_parse below says it for every parse, hence also
+       for the one SPDX precedence (AND over OR) selects. *)
 Theorem C19_same_tree s o : (canonicalize_license_expression s = Ok o \/ canonicalize_license_expression s = Limit o) ->
   exists e, expr_ok licenses exceptions e /\
             map classify (spdx_tokens s) = expr_tokens e /\
@@ -183,6 +197,11 @@ Theorem C19_same_tree s o : (canonicalize_license_expression s = Ok o \/ canonic
             shape (canon_expr licenses exceptions e) = shape e.
 Proof. exact (finalb_tree s o). Qed.
 Print Assumptions C19_same_tree.
+Theorem C19_same_tree_every_parse s o : (canonicalize_license_expression s = Ok o \/ canonicalize_license_expression s = Limit o) ->
+  forall e, map classify (spdx_tokens s) = expr_tokens e ->
+            map classify (spdx_tokens o) = expr_tokens (canon_expr licenses exceptions e).
+Proof. exact (finalb_tree_every_parse s o). Qed.
+Print Assumptions C19_same_tree_every_parse.
 
 (* 12. idempotent in the interpreter-dependent band as well: the result of a depth-101..200 expression is again such an expression
        with itself as result *)
@@ -191,7 +210,9 @@ Proof. exact (finalb_idempotent_limit s o). Qed.
 Print Assumptions C19_idempotent_limit.
 
 (* 13. the observation command l.spec, which the correspondence run compares with the harness-side Python reading of the property,
-       prints the specification of theorem 1 (run under another name for the sake of the extraction) *)
+       prints the specification of theorem 1 (run under another name for the sake of the extraction).  Plumbing: it is what makes
+       the l.spec stream a statement about spec_canon.  Both sides of that stream are automaton readings (gen_lic.spec in Python,
+       LicAuto in Coq); the inductive grammar LicGrammar.expr is tied to the automaton by theorem 2b only, it is never run. *)
 Theorem C19_spec_observation_is_the_specification s :
   obs_spec s = match spec_canon licenses exceptions s with
                | None => txt "N"
@@ -239,18 +260,27 @@ Definition C19_ids_check : bool :=
   opt_is (lic_canon licenses (txt "LicenseRef-a+b")) None &&
   opt_is (lic_canon licenses (txt "mit-")) None &&
   opt_is (exc_canon exceptions (txt "llvm-EXCEPTION")) (Some (txt "LLVM-exception")) &&
-  opt_is (exc_canon exceptions (txt "mit")) None.
+  opt_is (exc_canon exceptions (txt "mit")) None &&
+  opt_is (lic_canon licenses (txt "DocumentRef-a:LicenseRef-b")) None &&            (* Annex D forms the code rejects *)
+  opt_is (exc_canon exceptions (txt "AdditionRef-x")) None.
 Example C19_ids_nonvacuous : C19_ids_check = true.
 Proof. vm_compute. reflexivity. Qed.
 
 Definition is_ok_text (s o : list N) : bool := match canonicalize_license_expression s with Ok x => streq x o | _ => false end.
+(* text_layoutb decides all nine conjuncts of C19_textual_layout (LicLayout.text_layoutb_sound); the check: an accepted input whose
+   result passes, and one text per conjunct that fails it (empty, leading blank, trailing blank, a TAB, "  ", "( ", " )", ")O", "R(") *)
 Definition C19_layout_check : bool :=
   is_ok_text (txt " ( mit )or(gd AND( isc ) ) ") (txt "(MIT) OR (GD AND (ISC))") &&
-  adj lay (txt "(MIT) OR (GD AND (ISC))") &&
-  negb (adj lay (txt "( MIT)")) && negb (adj lay (txt "(MIT )")) && negb (adj lay (txt "MIT  OR GD")) &&
-  negb (adj lay (txt "(MIT)OR GD")) && negb (adj lay (txt "MIT OR(GD)")).
+  text_layoutb (txt "(MIT) OR (GD AND (ISC))") &&
+  negb (text_layoutb []) && negb (text_layoutb (txt " MIT")) && negb (text_layoutb (txt "MIT ")) &&
+  negb (text_layoutb (9 :: txt "MIT")) && negb (text_layoutb (txt "MIT" ++ [9] ++ txt "OR GD")) &&
+  negb (text_layoutb (txt "MIT  OR GD")) && negb (text_layoutb (txt "( MIT)")) && negb (text_layoutb (txt "(MIT )")) &&
+  negb (text_layoutb (txt "(MIT)OR GD")) && negb (text_layoutb (txt "MIT OR(GD)")).
 Example C19_layout_nonvacuous : C19_layout_check = true.
 Proof. vm_compute. reflexivity. Qed.
+(* the nine conjuncts themselves, on that result *)
+Example C19_layout_witness : text_layout (txt "(MIT) OR (GD AND (ISC))").
+Proof. apply text_layoutb_sound. vm_compute. reflexivity. Qed.
 
 Definition tok_eqb (a b : tok (list N)) : bool :=
   match a, b with
